@@ -5,6 +5,7 @@ Parents for derive / to_string are given field by field (the driver builds them 
 Key strings and paths travel as hex of their UTF-8 bytes.  A small pure-Python secp256k1 / Base58Check is
 used on the generator side only (to make valid public keys and strings that are then corrupted)."""
 import hashlib
+import hmac
 
 ID = "C08"
 LEVEL = "proof"
@@ -107,6 +108,49 @@ def payload_pub(pk, cc, depth, index, fp, version=XPUB):
     return version + bytes([depth]) + fp + index.to_bytes(4, "big") + cc + pk
 
 
+def py_master(seed):
+    I = hmac.new(b"Bitcoin seed", seed, hashlib.sha512).digest()
+    return int.from_bytes(I[:32], "big"), I[32:]
+
+
+def py_ckd(k, c, i):
+    """generator-side CKDpriv (only to FIND / BUILD inputs with leading zero bytes): (child key, chain code, IL)"""
+    data = (b"\0" + k.to_bytes(32, "big") if i >= H else ser_pub(ec_mul(k, G))) + i.to_bytes(4, "big")
+    I = hmac.new(c, data, hashlib.sha512).digest()
+    il = int.from_bytes(I[:32], "big")
+    return (il + k) % N, I[32:], il
+
+
+def py_fp(k):
+    return hashlib.new("ripemd160", hashlib.sha256(ser_pub(ec_mul(k, G))).digest()).digest()[:4]
+
+
+# children of the BIP32 test-vector-1 master whose serialisation has a leading zero byte somewhere (found once with
+# find_leading_zero below): hardened index -> what starts with 00
+LZ_HARDENED = {47: "fingerprint of the child (hash160 of its public key)", 78: "public key x", 156: "chain code",
+               280: "private key (ser256)", 1031: "IL"}
+LZ_NORMAL = {71: "chain code", 121: "private key (ser256)"}
+
+
+def find_leading_zero(seed, hardened, limit=4000):
+    """indices i (hardened or normal children of the master of [seed]) with a leading zero byte in key / chain code / IL /
+    public key x / fingerprint"""
+    k, c = py_master(seed)
+    out = {}
+    for i in range(limit):
+        ki, ci, il = py_ckd(k, c, i + (H if hardened else 0))
+        if ki >> 248 == 0: out.setdefault("key", i)
+        if ci[0] == 0: out.setdefault("cc", i)
+        if il >> 248 == 0: out.setdefault("il", i)
+        if "fp" not in out or "px" not in out:
+            pt = ec_mul(ki, G)
+            if pt[0] >> 248 == 0: out.setdefault("px", i)
+            if py_fp(ki)[0] == 0: out.setdefault("fp", i)
+        if len(out) == 5:
+            break
+    return out
+
+
 def spell(rng, idx, lead="m"):
     parts = []
     for i in idx:
@@ -153,6 +197,32 @@ def generate(rng, tier):
     A("xprv.seed_path", [TV1, T("m")]); A("xpub.seed_path", [TV1, T("M")])
     if not quick:
         A("xpub.seed_path", [TV2, T("m/0/1/2/3")])
+
+    # 2b. leading zero bytes: children of the test-vector-1 master whose private key / chain code / IL / public key x /
+    #     fingerprint starts with 00 (ser256 and friends must keep the zeros), then one more level below them, and their
+    #     strings read back
+    mk, mc = py_master(bytes.fromhex(TV1))
+    for i, _what in sorted(LZ_HARDENED.items()):
+        A("xprv.seed_path", [TV1, T("m/%d'" % i)])
+        ki, ci, _ = py_ckd(mk, mc, H + i)
+        fpm = py_fp(mk)
+        if quick and i not in (47, 78, 280):
+            continue
+        A("xprv.seed_path", [TV1, T("m/%dh/1" % i)])              # normal child below it: parent key / fingerprint in the data
+        A("xprv.from_string", [T(b58check(payload_priv(ki, ci, 1, H + i, fpm)))])
+        A("xpub.from_string", [T(b58check(payload_pub(ser_pub(ec_mul(ki, G)), ci, 1, H + i, fpm)))])
+        A("xpub.derive", xpub_args(ser_pub(ec_mul(ki, G)), ci, 1, H + i, fpm) + ["1"])
+        A("xprv.neuter_derive", xprv_args(ki, 1, ci, 1, H + i, fpm) + ["1"])
+    for i, _what in sorted(LZ_NORMAL.items()):
+        A("xprv.seed_path", [TV1, T("m/%d" % i)])
+        A("xpub.seed_path", [TV1, T("m/%d" % i)])
+    if not quick:
+        sd = rb(rng, 32)
+        for hardened in (True, False):
+            for _kind, i in sorted(find_leading_zero(sd, hardened, 1500).items()):
+                A("xprv.seed_path", [sd.hex(), T("m/%d%s/1" % (i, "'" if hardened else ""))])
+                if not hardened:
+                    A("xpub.seed_path", [sd.hex(), T("m/%d/1" % i)])
 
     # 3. explicit parents x boundary indices
     idxs = [0, 1, H - 1, H, H + 1, 2 ** 32 - 1]
